@@ -273,7 +273,8 @@ class Check:
                     chunks[f] = {"cycle": True, "sizes": rng.choice([[1], [2, 1], [7], [8191, 2], [4096], [rng.randint(1, 9000) for _ in range(4)]])}
         cols = rng.sample(CONTENT_COLS, 1 if kind == "fifo" else rng.choice([1, 2, 3, 7]))
         shape = rng.choice(["rows", "rows", "rows", "agg"])
-        return {"sub": "B", "world": world, "roots": roots, "plan": env, "faults": faults, "chunks": chunks, "cols": cols, "shape": shape, "kind": kind}
+        return {"sub": "B", "world": world, "roots": roots, "plan": env, "faults": faults, "chunks": chunks, "cols": cols, "shape": shape, "kind": kind,
+                "datecol": rng.choice([None, "modified", "accessed", "created"])}
 
     def gen_c(self, rng, tier):
         tops = [rng.choice(gen.SAFE_ROOTS)]
@@ -710,7 +711,10 @@ class Check:
             if kind in ("lstat_fail", "vanish_before_stat"):
                 # the entry's attributes cannot be obtained: its columns may be empty, never another entry's values
                 mcols = ["path", "size", "mode", "inode", "hardlinks", "uid", "is_dir", "is_file", "modified"] + cols[:1]
-                qm = "select " + ", ".join(mcols) + self.from_clause(roots) + " into list"
+                # sometimes behind a filter that looks at a time of the entry first and lets every row pass
+                # (`T > '1980-01-02' or name != 'zq'`: a time that is not available is no reason to stop the search)
+                wc = (" where %s > '1980-01-02' or name != 'zq'" % case["datecol"]) if case.get("datecol") else ""
+                qm = "select " + ", ".join(mcols) + self.from_clause(roots) + wc + " into list"
                 rr = sb.run([qm], plan=copy.deepcopy(case["plan"]))
                 rx = sb.run([qm], plan=self.plan_with(case))
                 bad = crashy(rx) or crashy(rr)
